@@ -126,6 +126,18 @@ func (x *Exec) evalCall(e *ast.CallExpr, st *State, sp *SpecCtx) Value {
 				args := x.evalArgs(e.Args, st, sp)
 				return x.callClosure(fv.Fn, args, e, st)
 			}
+			// a local function variable whose value is not known here (defined before the region under verification):
+			// if the enclosing function assigns it exactly once, and a function literal, that literal is what is called.
+			if lit := x.uniqueClosureDef(o); lit != nil {
+				cv := x.eval(lit, st, nil)
+				if cv.Fn != nil {
+					args := x.evalArgs(e.Args, st, sp)
+					return x.callClosure(cv.Fn, args, e, st)
+				}
+			}
+			if _, isSig := o.Type().Underlying().(*types.Signature); isSig {
+				x.trustedUsed[fmt.Sprintf("%s: call through the function variable %s whose value is not known here: its effects are not modelled", x.uc.ID(), o.Name())] = true
+			}
 		}
 	case *ast.SelectorExpr:
 		if sp == nil {
@@ -847,6 +859,71 @@ func (x *Exec) mergeValue(pcA *Term, a, b Value, fu *FuncUnit, j int, st *State)
 		return b
 	}
 	return x.freshValue("ret", t, st)
+}
+
+// uniqueClosureDef: the function literal assigned to the local variable v, if v is assigned exactly once in the enclosing
+// function (by := , = or var) and never has its address taken.
+func (x *Exec) uniqueClosureDef(v *types.Var) *ast.FuncLit {
+	if x.closureDefs == nil {
+		x.closureDefs = map[*types.Var]*ast.FuncLit{}
+	}
+	if lit, ok := x.closureDefs[v]; ok {
+		return lit
+	}
+	var found *ast.FuncLit
+	n := 0
+	var root ast.Node = x.unit.Body
+	if x.unit.Decl != nil {
+		root = x.unit.Decl
+	}
+	ast.Inspect(root, func(nd ast.Node) bool {
+		switch s := nd.(type) {
+		case *ast.AssignStmt:
+			for i, l := range s.Lhs {
+				id, ok := l.(*ast.Ident)
+				if !ok {
+					continue
+				}
+				obj := x.info.Defs[id]
+				if obj == nil {
+					obj = x.info.Uses[id]
+				}
+				if obj != v {
+					continue
+				}
+				n++
+				if len(s.Lhs) == len(s.Rhs) {
+					if fl, ok := s.Rhs[i].(*ast.FuncLit); ok {
+						found = fl
+					}
+				}
+			}
+		case *ast.ValueSpec:
+			for i, id := range s.Names {
+				if x.info.Defs[id] != v {
+					continue
+				}
+				if i < len(s.Values) {
+					n++
+					if fl, ok := s.Values[i].(*ast.FuncLit); ok {
+						found = fl
+					}
+				}
+			}
+		case *ast.UnaryExpr:
+			if s.Op == token.AND {
+				if id, ok := s.X.(*ast.Ident); ok && x.info.Uses[id] == v {
+					n += 2
+				}
+			}
+		}
+		return true
+	})
+	if n != 1 {
+		found = nil
+	}
+	x.closureDefs[v] = found
+	return found
 }
 
 func (x *Exec) callClosure(c *Closure, args []Value, e ast.Node, st *State) Value {
